@@ -18,7 +18,7 @@
 
 namespace rpc {
 
-constexpr int kMethods = 9;
+constexpr int kMethods = 11;
 template <int K> using ArgsT = typename pool::PoolType<2 * K>::type;
 template <int K> using RetT = typename pool::PoolType<2 * K + 1>::type;
 
@@ -42,6 +42,13 @@ struct IfaceB {
   NOP_METHOD_SEL(1234, M8, typename Sig<RetT<8>, ArgsT<8>>::type);
   NOP_INTERFACE_API(M6, M7, M8);
 };
+// an interface whose name is not ASCII: the name hash sees bytes >= 0x80
+struct IfaceC {
+  NOP_INTERFACE("io.nopv.harn\xc3\xa9ss.Gr\xc3\xbc\xc3\x9fe.IfaceC");
+  NOP_METHOD(M9, typename Sig<RetT<9>, ArgsT<9>>::type);
+  NOP_METHOD(M10, typename Sig<RetT<10>, ArgsT<10>>::type);
+  NOP_INTERFACE_API(M9, M10);
+};
 template <int K> struct MethodOf;
 template <> struct MethodOf<0> { using type = IfaceA::M0; };
 template <> struct MethodOf<1> { using type = IfaceA::M1; };
@@ -52,6 +59,8 @@ template <> struct MethodOf<5> { using type = IfaceA::M5; };
 template <> struct MethodOf<6> { using type = IfaceB::M6; };
 template <> struct MethodOf<7> { using type = IfaceB::M7; };
 template <> struct MethodOf<8> { using type = IfaceB::M8; };
+template <> struct MethodOf<9> { using type = IfaceC::M9; };
+template <> struct MethodOf<10> { using type = IfaceC::M10; };
 template <int K> std::uint64_t selector() { return static_cast<std::uint64_t>(MethodOf<K>::type::Selector); }
 
 // ---- server state ---------------------------------------------------------------------------------
@@ -137,6 +146,7 @@ static std::string bindings_desc(const Table& t) {
       case 0: slot_desc<0>(s); break; case 1: slot_desc<1>(s); break; case 2: slot_desc<2>(s); break;
       case 3: slot_desc<3>(s); break; case 4: slot_desc<4>(s); break; case 5: slot_desc<5>(s); break;
       case 6: slot_desc<6>(s); break; case 7: slot_desc<7>(s); break; case 8: slot_desc<8>(s); break;
+      case 9: slot_desc<9>(s); break; case 10: slot_desc<10>(s); break;
     }
   }
   return s + ")";
@@ -145,6 +155,7 @@ static std::string bindings_desc(const Table& t) {
 // one dispatch on `buf` starting at `from`; prints the M / I pair
 static Outcome serve_once(Ctx& c, const Table& t, const std::vector<std::uint8_t>& buf, std::size_t from, const char* what) {
   std::vector<std::uint8_t> rest(buf.begin() + static_cast<long>(from), buf.end());
+  current_input() = std::string("rpc dispatch table=") + t.name + " request=" + hex(rest);
   Heap h(rest);
   SrvDes des{h.p, h.n};
   SrvSer ser;
@@ -159,7 +170,7 @@ static Outcome serve_once(Ctx& c, const Table& t, const std::vector<std::uint8_t
   o.consumed = h.n - des.reader().remaining();
   std::string calls = "-";
   if (!o.calls.empty()) { calls.clear(); for (std::size_t i = 0; i < o.calls.size(); i++) { if (i) calls += ' '; calls += o.calls[i]; } }
-  c.line('M', std::string("rpc ") + t.sk + " " + bindings_desc(t) + " " + hex(rest));
+  c.line('M', std::string("rpc ") + (std::string(t.sk) == "u32" ? "u32" : "u64") + " " + bindings_desc(t) + " " + hex(rest));
   c.line('I', std::string(o.ok ? "ok" : status_name(o.err)) + " | " + calls + " | " + hex(o.sent) + " | " + std::to_string(o.consumed));
   c.stat(std::string("rpc dispatch ") + what);
   if (!o.ok && (!o.calls.empty() || !o.sent.empty()))
@@ -172,7 +183,7 @@ static Outcome serve_once(Ctx& c, const Table& t, const std::vector<std::uint8_t
 template <int K> void refill_slot(Rng& r) { RetT<K> v{}; fill(r, v, 0); Slot<K>::ret = v; }
 static void refill_all(Rng& r) {
   refill_slot<0>(r); refill_slot<1>(r); refill_slot<2>(r); refill_slot<3>(r); refill_slot<4>(r);
-  refill_slot<5>(r); refill_slot<6>(r); refill_slot<7>(r); refill_slot<8>(r);
+  refill_slot<5>(r); refill_slot<6>(r); refill_slot<7>(r); refill_slot<8>(r); refill_slot<9>(r); refill_slot<10>(r);
 }
 
 using CliSer = nop::Serializer<nop::StreamWriter<std::stringstream>>;
@@ -247,6 +258,7 @@ static std::vector<std::uint8_t> call_any(Ctx& c, Rng& rng, const Table& t, int 
     case 0: call_k<0>(c, rng, t, &r); break; case 1: call_k<1>(c, rng, t, &r); break; case 2: call_k<2>(c, rng, t, &r); break;
     case 3: call_k<3>(c, rng, t, &r); break; case 4: call_k<4>(c, rng, t, &r); break; case 5: call_k<5>(c, rng, t, &r); break;
     case 6: call_k<6>(c, rng, t, &r); break; case 7: call_k<7>(c, rng, t, &r); break; case 8: call_k<8>(c, rng, t, &r); break;
+    case 9: call_k<9>(c, rng, t, &r); break; case 10: call_k<10>(c, rng, t, &r); break;
   }
   return r;
 }
@@ -270,7 +282,7 @@ static void run(Ctx& c) {
     std::string s;
 #define NOPV_T(I) c.line('M', "T " #I " " + std::string(pool::PoolType<I>::sexp));
     NOPV_T(1) NOPV_T(2) NOPV_T(3) NOPV_T(4) NOPV_T(5) NOPV_T(6) NOPV_T(7) NOPV_T(8) NOPV_T(9)
-    NOPV_T(10) NOPV_T(11) NOPV_T(12) NOPV_T(13) NOPV_T(14) NOPV_T(15) NOPV_T(16) NOPV_T(17)
+    NOPV_T(10) NOPV_T(11) NOPV_T(12) NOPV_T(13) NOPV_T(14) NOPV_T(15) NOPV_T(16) NOPV_T(17) NOPV_T(18) NOPV_T(19) NOPV_T(20) NOPV_T(21)
 #undef NOPV_T
   }
   auto t1 = nop::BindInterface(IfaceA::M0::Bind(&Fn<0, ArgsT<0>>::plain), IfaceA::M1::Bind(Fn<1, ArgsT<1>>::lambda()),
@@ -279,19 +291,39 @@ static void run(Ctx& c) {
   auto t2 = nop::BindInterface(IfaceA::M3::Bind(Fn<3, ArgsT<3>>::lambda()), IfaceA::M0::Bind(Fn<0, ArgsT<0>>::lambda()));
   auto t3 = nop::BindInterface<Obj*>(IfaceB::M6::Bind(&Obj::m6), IfaceB::M7::Bind(&Obj::m7), IfaceB::M8::Bind(&Obj::m8));
   auto t4 = nop::BindInterface<Obj*>(IfaceB::M8::Bind(&Obj::m8));
+  auto t5 = nop::BindInterface(IfaceC::M9::Bind(Fn<9, ArgsT<9>>::lambda()), IfaceC::M10::Bind(&Fn<10, ArgsT<10>>::plain));
+  // the selectors are the documented hash of interface and method name (tie to the SipHash model)
+  {
+    auto hx = [](const char* s) { return hex(reinterpret_cast<const std::uint8_t*>(s), std::strlen(s)); };
+    struct Sel { const char* iface; const char* method; std::uint64_t sel; bool wide; };
+    const Sel sels[] = {
+        {"io.nopv.harness.IfaceA", "M0", selector<0>(), true}, {"io.nopv.harness.IfaceA", "M3", selector<3>(), true},
+        {"io.nopv.harness.IfaceA", "M5", selector<5>(), true}, {"io.nopv.harness.IfaceB", "M6", selector<6>(), false},
+        {"io.nopv.harness.IfaceB", "M7", selector<7>(), false},
+        {"io.nopv.harn\xc3\xa9ss.Gr\xc3\xbc\xc3\x9fe.IfaceC", "M9", selector<9>(), true},
+        {"io.nopv.harn\xc3\xa9ss.Gr\xc3\xbc\xc3\x9fe.IfaceC", "M10", selector<10>(), true}};
+    for (const Sel& x : sels) {
+      c.line('M', std::string(x.wide ? "sel64 " : "sel32 ") + hx(x.iface) + " " + hx(x.method));
+      c.line('I', std::to_string(x.sel));
+      c.stat("rpc selector = hash of the names");
+    }
+  }
   std::vector<Table> tables;
   tables.push_back(Table{"A-all", "u64", {0, 1, 2, 3, 4, 5}, [&](Receiver* r) { return t1(r); }});
   tables.push_back(Table{"A-partial", "u64", {3, 0}, [&](Receiver* r) { return t2(r); }});
+  tables.push_back(Table{"C-all-nonascii", "u64c", {9, 10}, [&](Receiver* r) { return t5(r); }});
   tables.push_back(Table{"B-all-passthrough", "u32", {6, 7, 8}, [&](Receiver* r) { return t3(r, static_cast<Obj*>(&obj)); }});
   tables.push_back(Table{"B-partial-passthrough", "u32", {8}, [&](Receiver* r) { return t4(r, static_cast<Obj*>(&obj)); }});
 
   const int rounds = c.thorough ? 60 : 4;   // per shard (16 shards with different seeds)
   for (int round = 0; round < rounds; round++) {
     for (const Table& t : tables) {
-      const bool a = std::string(t.sk) == "u64";
+      const bool a = std::string(t.sk) != "u32";
+      const int first = std::string(t.sk) == "u64" ? 0 : (std::string(t.sk) == "u32" ? 6 : 9);
+      const int last = std::string(t.sk) == "u64" ? 6 : (std::string(t.sk) == "u32" ? 9 : 11);
       // every method of the table's interface: bound ones are dispatched, the others refused
       std::vector<std::vector<std::uint8_t>> requests;
-      for (int k = a ? 0 : 6; k < (a ? 6 : 9); k++) requests.push_back(call_any(c, rng, t, k));
+      for (int k = first; k < last; k++) requests.push_back(call_any(c, rng, t, k));
       // selector values that belong to no method at all
       for (int j = 0; j < 3; j++) {
         refill_all(rng);
@@ -300,7 +332,8 @@ static void run(Ctx& c) {
         for (int k = 0; k < kMethods; k++) {
           std::uint64_t s = 0;
           switch (k) { case 0: s = selector<0>(); break; case 1: s = selector<1>(); break; case 2: s = selector<2>(); break; case 3: s = selector<3>(); break;
-                       case 4: s = selector<4>(); break; case 5: s = selector<5>(); break; case 6: s = selector<6>(); break; case 7: s = selector<7>(); break; case 8: s = selector<8>(); break; }
+                       case 4: s = selector<4>(); break; case 5: s = selector<5>(); break; case 6: s = selector<6>(); break; case 7: s = selector<7>(); break; case 8: s = selector<8>(); break;
+                       case 9: s = selector<9>(); break; case 10: s = selector<10>(); break; }
           if (s == sel) is_method = true;
         }
         if (is_method) continue;
@@ -335,7 +368,7 @@ static void run(Ctx& c) {
         std::vector<std::size_t> ends;
         for (int j = 0; j < 4; j++) {
           int k = bound[rng.below(bound.size())];
-          const auto& q = requests[static_cast<std::size_t>(k - (a ? 0 : 6))];
+          const auto& q = requests[static_cast<std::size_t>(k - first)];
           wire.insert(wire.end(), q.begin(), q.end());
           ends.push_back(wire.size());
         }
@@ -358,6 +391,7 @@ static void run(Ctx& c) {
 }  // namespace rpc
 
 int main(int argc, char** argv) {
+  install_death_hooks();
   Ctx c;
   for (int i = 1; i < argc; i++) {
     std::string a = argv[i];
